@@ -351,4 +351,12 @@ example : constantTimeCompare [1, 2, 255] [1, 2, 255] = 1 ∧ constantTimeCompar
     constantTimeCompare [1, 2, 255] [1, 2] = 0 ∧ constantTimeCompare [1, 2] [1, 2, 255] = 0 ∧
     constantTimeCompare [] [] = 1 := by decide
 
+/-- **Every byte of the executable is hashed**: what reaches the hasher is the file's whole content, whatever its size. -/
+theorem whole_file_hashed (C : CheckParams) (hC : C.Good) (b : Bytes) : hashedPart C b = b := by
+  simp [hashedPart, show C.wholeFile = true from hC]
+
+/-- Witness: with a read limit, two executables that differ only beyond the limit are indistinguishable to `Check` — a
+payload appended past the limit runs unverified -/
+theorem read_limit_witness : hashedPart ⟨false, 4⟩ [1, 2, 3, 4, 5] = hashedPart ⟨false, 4⟩ [1, 2, 3, 4, 66, 77] := by decide
+
 end GoPlugin.Props.C13
